@@ -5,7 +5,7 @@ use crate::util::*;
 use serde_json::{json, Value};
 use std::io::{Read, Write};
 use std::os::fd::{AsRawFd, FromRawFd};
-use std::sync::atomic::{AtomicBool, Ordering};
+use std::sync::atomic::{AtomicBool, AtomicU64, Ordering};
 use std::sync::{Arc, Mutex};
 use std::time::Duration;
 use surf_n_term::verif;
@@ -42,7 +42,7 @@ fn poll_kind(r: &Result<Option<TerminalEvent>, surf_n_term::Error>) -> (String, 
     match r {
         Ok(None) => ("none".into(), 0),
         Ok(Some(TerminalEvent::Wake)) => ("wake".into(), 0),
-        Ok(Some(TerminalEvent::Resize(_))) => ("resize".into(), 0),
+        Ok(Some(TerminalEvent::Resize(sz))) => ("resize".into(), (sz.cells.height * 1000 + sz.cells.width) as u32),
         Ok(Some(TerminalEvent::Key(k))) => match k.name {
             KeyName::Char(c) => ("key".into(), c as u32),
             _ => ("key".into(), 0),
@@ -63,9 +63,13 @@ fn session(seed: u64, scenario: &str) -> Vec<Value> {
     let mut rnd = Rng::new(seed ^ 0xc17);
     let (master, slave) = open_pty();
     unsafe {
-        let ws = libc::winsize { ws_row: 24, ws_col: 80, ws_xpixel: 800, ws_ypixel: 480 };
+        // "escsize": the kernel reports no pixel size, so the library falls back to asking the terminal (CSI 18 t, CSI 14 t)
+        let px = if scenario == "escsize" { 0 } else { 1 };
+        let ws = libc::winsize { ws_row: 24, ws_col: 80, ws_xpixel: 800 * px, ws_ypixel: 480 * px };
         libc::ioctl(master.as_raw_fd(), libc::TIOCSWINSZ, &ws);
     }
+    // the size the emulated terminal reports when asked: rows * 1000 + columns
+    let reported = Arc::new(AtomicU64::new(24 * 1000 + 80));
     // keep the slave open so that the peer never sees EIO
     let keep = std::fs::OpenOptions::new().read(true).write(true).open(&slave).unwrap();
     let saved = termios_of(keep.as_raw_fd());
@@ -77,6 +81,7 @@ fn session(seed: u64, scenario: &str) -> Vec<Value> {
         let mut mr = master.try_clone().unwrap();
         let mw = master_w.clone();
         let stop = stop.clone();
+        let reported2 = reported.clone();
         std::thread::spawn(move || {
             let mut buf = vec![0u8; if slow == 2 { 512 } else { 4096 }];
             let mut tail: Vec<u8> = Vec::new();
@@ -104,11 +109,18 @@ fn session(seed: u64, scenario: &str) -> Vec<Value> {
                             }
                         }
                         tail.extend_from_slice(&buf[..n]);
-                        let mut replies = 0;
                         let text: Vec<u8> = tail.iter().copied().filter(|b| *b < 0x80).collect();
-                        for w in text.windows(3) {
-                            if w == b"\x1b[c" {
-                                replies += 1;
+                        // requests in the order they were written: DA1 (CSI c) and the size query (CSI 18 t CSI 14 t,
+                        // answered when its second half is seen)
+                        let mut replies: Vec<u8> = Vec::new();
+                        let mut last_end = 0;
+                        for i in 0..text.len() {
+                            if text[i..].starts_with(b"\x1b[c") {
+                                replies.push(b'c');
+                                last_end = i + 3;
+                            } else if text[i..].starts_with(b"\x1b[14t") {
+                                replies.push(b't');
+                                last_end = i + 5;
                             }
                         }
                         if text.windows(6).any(|w| w == b"\x1b[?25h") {
@@ -117,14 +129,20 @@ fn session(seed: u64, scenario: &str) -> Vec<Value> {
                         if text.windows(8).any(|w| w == b"\x1b[?1000l") {
                             ev(r#"{"ev":"peer_saw","what":"mouse_off"}"#.to_string());
                         }
-                        // keep only a short low-byte tail so that split sequences are still found once
-                        let keep_from = text.len().saturating_sub(7);
-                        let ends_clean = replies > 0;
-                        tail = if ends_clean { Vec::new() } else { text[keep_from..].to_vec() };
-                        for _ in 0..replies {
+                        // keep only a short low-byte tail behind the last answered request so that split sequences are
+                        // still found once
+                        tail = text[last_end.max(text.len().saturating_sub(7))..].to_vec();
+                        for r in replies {
                             let mut w = mw.lock().unwrap();
-                            ev(r#"{"ev":"peer_send","kind":"da1","id":0}"#.to_string());
-                            let _ = w.write_all(b"\x1b[?62;c");
+                            if r == b'c' {
+                                ev(r#"{"ev":"peer_send","kind":"da1","id":0,"n":7}"#.to_string());
+                                let _ = w.write_all(b"\x1b[?62;c");
+                            } else {
+                                let sz = reported2.load(Ordering::SeqCst);
+                                let msg = format!("\x1b[8;{};{}t\x1b[4;{};{}t", sz / 1000, sz % 1000, sz / 1000 * 20, sz % 1000 * 10);
+                                ev(format!(r#"{{"ev":"peer_send","kind":"size","id":{},"n":{}}}"#, sz, msg.len()));
+                                let _ = w.write_all(msg.as_bytes());
+                            }
                         }
                         match slow {
                             1 => std::thread::sleep(Duration::from_micros(300)),
@@ -144,10 +162,11 @@ fn session(seed: u64, scenario: &str) -> Vec<Value> {
     if seed % 3 == 0 {
         term.duplicate_output(&tee).expect("tee file");
     }
-    ev(r#"{"ev":"session_start"}"#.to_string());
+    ev(format!(r#"{{"ev":"session_start","esc":{}}}"#, scenario == "escsize"));
     let mut threads = Vec::new();
     let mut frame_no = 0u64;
     let mut pending_wakes = false;
+    let mut winch_no = 0usize;
     let steps = 6 + rnd.below(10);
     let sizes = [1usize, 3, 10, 200, 1000, 5000, 20000, 70000, 300000];
     let do_poll = |term: &mut SystemTerminal, tmo: Option<Duration>| -> (String, u32) {
@@ -156,8 +175,44 @@ fn session(seed: u64, scenario: &str) -> Vec<Value> {
         ev(format!(r#"{{"ev":"poll_ret","kind":"{}","id":{},"eof":false}}"#, kind, id));
         (kind, id)
     };
+    if scenario == "escsize" {
+        // a window change while a large frame is in flight, the size request queues up behind it; then the application
+        // drops its stale frames: the request must survive (or be issued again), or the change is never reported
+        let v = 0x80 + (frame_no % 100) as u8;
+        frame_no += 1;
+        ev(format!(r#"{{"ev":"app_write","v":{},"n":{}}}"#, v, 200000));
+        term.write_all(&vec![v; 200000]).unwrap();
+        term.flush().unwrap();
+        do_poll(&mut term, Some(Duration::from_millis(0)));
+        reported.store(30 * 1000 + 100, Ordering::SeqCst);
+        ev(r#"{"ev":"sig_raise","sig":28}"#.to_string());
+        unsafe { libc::raise(libc::SIGWINCH) };
+        do_poll(&mut term, Some(Duration::from_millis(0)));
+        let v = 0x80 + (frame_no % 100) as u8;
+        frame_no += 1;
+        ev(format!(r#"{{"ev":"app_write","v":{},"n":{}}}"#, v, 50));
+        term.write_all(&vec![v; 50]).unwrap();
+        term.flush().unwrap();
+        if seed / 8 % 2 == 0 {
+            term.frames_drop();
+        }
+        // once everything is out: a window change met by a poll without a timeout that starts with nothing to send;
+        // the signal alone must bring the poll back (request written, answer read, Resize delivered)
+        let mut idle = 0;
+        let mut guard = 0;
+        while idle < 2 && guard < 2000 {
+            guard += 1;
+            let (kind, _) = do_poll(&mut term, Some(Duration::from_millis(40)));
+            idle = if kind == "none" && term.frames_pending() == 0 { idle + 1 } else { 0 };
+        }
+        reported.store(40 * 1000 + 120, Ordering::SeqCst);
+        ev(r#"{"ev":"sig_raise","sig":28}"#.to_string());
+        unsafe { libc::raise(libc::SIGWINCH) };
+        do_poll(&mut term, None);
+    }
     for _ in 0..steps {
-        match rnd.below(12) {
+        let step = rnd.below(12);
+        match if scenario == "escsize" && (step == 4 || step == 5) { 8 } else { step } {
             0..=3 => {
                 // a numbered frame: payload bytes are >= 0x80, one value per frame
                 let n = if scenario == "big" { sizes[3 + rnd.below(6)] } else { sizes[rnd.below(7)] };
@@ -206,9 +261,21 @@ fn session(seed: u64, scenario: &str) -> Vec<Value> {
                 }
             }
             8 => {
+                if scenario == "escsize" {
+                    // the window alternates between three sizes, so that going back to an earlier one occurs
+                    let sizes = [24 * 1000 + 80, 30 * 1000 + 100, 40 * 1000 + 120];
+                    winch_no += 1;
+                    reported.store(sizes[(winch_no + rnd.below(2)) % 3], Ordering::SeqCst);
+                }
                 ev(r#"{"ev":"sig_raise","sig":28}"#.to_string());
                 unsafe { libc::raise(libc::SIGWINCH) };
-                if rnd.chance(1, 2) {
+                if scenario == "escsize" && rnd.chance(1, 2) {
+                    // a poll without a timeout: the signal alone must bring it back (request, answer, Resize)
+                    let (kind, _) = do_poll(&mut term, None);
+                    if kind == "wake" {
+                        pending_wakes = false;
+                    }
+                } else if rnd.chance(1, 2) {
                     // a wake in the same round as the signal
                     ev(r#"{"ev":"wake_start"}"#.to_string());
                     term.waker().wake().unwrap();
